@@ -25,10 +25,14 @@ def bReadU (n : Nat) : RM Nat := fun r =>
 /-- as-found tail of `ReadString`: `*data = string(b.Next(length))` without a length check -/
 def readStringTail (l : Nat) : RM Bytes := next (l : Int)
 
-/-- as-found `ReadSliceInt8/Uint8` for `len > 0` -/
+/-- as-found `ReadSliceInt8/Uint8` for `len > 0` (for `len ≤ 0` the as-found code returned without
+    assigning, so the target kept its previous content: see `readSlice8Empty`) -/
 def readSlice8 (len : Nat) : RM Bytes := fun r =>
   match readBuf len r with
   | ((buf, false), r') => (.ok buf, r')
   | ((_, true), r') => (.error .eof, r')
+
+/-- as-found `ReadSliceInt8/Uint8` for `len ≤ 0`: the target keeps `old` -/
+def readSlice8Empty (old : Bytes) : RM Bytes := fun r => (.ok old, r)
 
 end Tars.AsFound
